@@ -53,7 +53,7 @@ RULE = (
 )
 ASSUMPTIONS = [
     "applications respect the adapter's documented preconditions: one pending wait_connected() per protocol, no write after "
-    "write_eof, request_key_update only after the handshake and before termination, first write directly after create_stream "
+    "write_eof, request_key_update only after the handshake and before termination and at most once per side (a second update before the first is acknowledged is forbidden by RFC 9001 6.1 and not gated by the core; observed: the peer then drops every packet until idle timeout), first write directly after create_stream "
     "(the lazy-first-write case is probed separately under its own signature)",
     "a wait_connected() first awaited after the handshake completed finishes only at termination with ConnectionError; the "
     "property text allows 'success or a connection error', so this is counted as an observation, not a violation",
@@ -199,7 +199,9 @@ def gen_spec(seed):
         for _ in range(rng.choice([0, 0, 1, 2])):
             c["ops"].append({"op": "change_cid", "at": round(rng.random() * 2.0, 4)})
         if kind != "forged_error":
-            for _ in range(rng.choice([0, 0, 1, 2])):
+            # at most one key update per side: RFC 9001 6.1 forbids a second update before the first is acknowledged and
+            # QuicConnection.request_key_update() does not enforce it (sans-IO core, not the adapter)
+            for _ in range(rng.choice([0, 0, 1, 1])):
                 c["ops"].append({"op": "key_update", "at": round(rng.random() * 2.0, 4)})
         if rng.random() < 0.5:
             c["bg_ops"].append({"op": "wait_closed", "at": round(rng.random() * 1.5, 4)})
